@@ -32,7 +32,8 @@ LEVEL = "exploration"
 RULE = (
     "case = call set: limiter total 1-4, 1-12 calls each (kind: return | raise | "
     "from_thread.run callback | from_thread.run_sync callback | check_cancelled probe, "
-    "abandon_on_cancel on/off, nested scope on/off, caller's scope shielded or not, cancel plan: none | before the function "
+    "abandon_on_cancel on/off, nested scope on/off, caller's scope shielded or not, worker "
+    "MAX_IDLE_TIME default or lowered to 0-4 ms so that idle-worker pruning happens, cancel plan: none | before the function "
     "starts | while it runs | after its gate opened), seeded gate-opening permutation with "
     "sub-millisecond delays, seeded sys.monitoring delay injection; on asyncio(debug) and "
     "uvloop. Non-trivial = more calls than tokens were in flight, or a caller was cancelled "
@@ -103,6 +104,9 @@ def gen_case(rng: random.Random, cfg: str) -> dict:
     order = list(range(n))
     rng.shuffle(order)
     return {"cfg": cfg, "total": total, "calls": calls, "gate_order": order,
+            # idle-worker pruning: the pool's MAX_IDLE_TIME (10 s) cannot be waited out in
+            # a check, so a share of the cases runs with the class constant lowered
+            "max_idle": rng.choice([None, None, 0.0, 0.001, 0.004]),
             "delays": [rng.choice([0, 0, 0.0005, 0.001, 0.002]) for _ in range(2 * n + 2)],
             "inject_seed": rng.randrange(1 << 30)}  # fmt: skip
 
@@ -306,6 +310,11 @@ def execute(case: dict) -> dict:
                                                 "waiting": st.tasks_waiting}))  # fmt: skip
 
     errors: list = []
+    saved_idle = A.WorkerThread.MAX_IDLE_TIME
+    if case.get("max_idle") is not None:
+        A.WorkerThread.MAX_IDLE_TIME = case["max_idle"]
+        window("lowered_max_idle_time")
+
     try:
         if case["cfg"] == "uvloop":
             anyio.run(main, backend_options={"use_uvloop": True, "debug": True})
@@ -314,6 +323,8 @@ def execute(case: dict) -> dict:
     except BaseException as e:  # noqa: BLE001
         errors.append(repr(e))
         viol.append(("exception-escaped-call-set", {"exc": repr(e)}))
+    finally:
+        A.WorkerThread.MAX_IDLE_TIME = saved_idle
 
     # ------------------------------------------------------------------ offline oracle
     for clause, detail in mon.viol:
